@@ -155,6 +155,28 @@ Theorem anticommutator_sound :
 Proof. exact AlgebraProofs.anticommutator_sound. Qed.
 Print Assumptions anticommutator_sound.
 
+(** a product only mentions modes that its factors mention ... *)
+Theorem pmul_range :
+  forall (K : Type) (kadd kmul : K -> K -> K) (kopp : K -> K) (kzero : K -> bool)
+         (M : nat) (a b ab : poly K),
+  poly_in_range K M a -> poly_in_range K M b ->
+  pmul K kadd kmul kopp kzero a b = Done ab -> poly_in_range K M ab.
+Proof. exact AlgebraProofs.pmul_range. Qed.
+Print Assumptions pmul_range.
+
+(** ... and (A*B)*C and A*(B*C), both as computed by operator*=, have the same matrix *)
+Theorem mul_assoc_sem :
+  forall (K : Type) (k0 k1 : K) (kadd kmul ksub : K -> K -> K) (kopp : K -> K) (kzero : K -> bool),
+  ring_ok K k0 k1 kadd kmul ksub kopp kzero ->
+  forall (M : nat) (a b c ab bc abc abc' : poly K),
+  poly_in_range K M a -> poly_in_range K M b -> poly_in_range K M c ->
+  pmul K kadd kmul kopp kzero a b = Done ab -> pmul K kadd kmul kopp kzero ab c = Done abc ->
+  pmul K kadd kmul kopp kzero b c = Done bc -> pmul K kadd kmul kopp kzero a bc = Done abc' ->
+  forall s t, length s = M -> length t = M ->
+  coef_poly K k0 k1 kadd kmul kopp abc s t = coef_poly K k0 k1 kadd kmul kopp abc' s t.
+Proof. exact AlgebraProofs.mul_assoc_sem. Qed.
+Print Assumptions mul_assoc_sem.
+
 (** the algorithm's own output: {c_i, c^+_j} = delta_ij, {c_i, c_j} = 0, {c^+_i, c^+_j} = 0, as maps *)
 Theorem car_poly :
   forall (K : Type) (k0 k1 : K) (kadd kmul ksub : K -> K -> K) (kopp : K -> K) (kzero : K -> bool),
@@ -198,6 +220,22 @@ Theorem commutes_sound :
        (fun u => kmul (coef_poly K k0 k1 kadd kmul kopp b u t) (coef_poly K k0 k1 kadd kmul kopp a s u)).
 Proof. exact AlgebraProofs.commutes_sound. Qed.
 Print Assumptions commutes_sound.
+
+(** completeness of the equality test: two sorted maps with normal-ordered keys and non-zero
+    coefficients that have the same matrix on a Fock space containing all their modes are the
+    same map (normal-ordered monomials are linearly independent), so the test answers true *)
+Theorem poly_eq_complete :
+  forall (K : Type) (k0 k1 : K) (kadd kmul ksub : K -> K -> K) (kopp : K -> K) (kzero : K -> bool),
+  ring_ok K k0 k1 kadd kmul ksub kopp kzero -> k1 <> k0 ->
+  forall (M : nat) (a b : poly K),
+  poly_sorted K a -> poly_sorted K b -> poly_normal K a -> poly_normal K b ->
+  poly_nonzero K k0 a -> poly_nonzero K k0 b ->
+  poly_in_range K M a -> poly_in_range K M b ->
+  (forall s t, length s = M -> length t = M ->
+     coef_poly K k0 k1 kadd kmul kopp a s t = coef_poly K k0 k1 kadd kmul kopp b s t) ->
+  poly_eq K ksub kzero true a b = Done true.
+Proof. exact AlgebraProofs.poly_eq_complete. Qed.
+Print Assumptions poly_eq_complete.
 
 (** the comparison as it was before "fix: compare monomial lengths in Operator equality"
     (prefix comparison of monomials) is unsound: it answers true for c^+_0 and c^+_0 c^+_1 c_2 ... *)
